@@ -32,7 +32,7 @@ prop('C01',
          dict(name='parallel', engine='E1', pkg='optpar', test='TestPar', race=True, replay_test='TestReplayPar', env=dict(GORACE='halt_on_error=1'),
               quick=dict(cases=150, shards=1), thorough=dict(cases=4000, shards=4, timeout=3000)),
          dict(name='shapes', engine='E1', kind='gen', gen='lens', pkg='gen', test='TestShapes',
-              quick=dict(shapes=12, pkgs=4, draws=25), thorough=dict(shapes=30, pkgs=24, draws=100, timeout=3000)),
+              quick=dict(shapes=12, pkgs=4, draws=25), thorough=dict(shapes=30, pkgs=24, draws=60, timeout=7200)),
          dict(name='dyn', engine='E2', pkg='optdyn', test='TestDyn',
               quick=dict(cases=12000, shards=2), thorough=dict(cases=150000, shards=16, timeout=3000)),
      ],
@@ -53,7 +53,7 @@ prop('C02',
      assumptions=E1_ASSUME,
      parts=[
          dict(name='shapes', engine='E1', kind='gen', gen='lens', pkg='gen', test='TestShapes',
-              quick=dict(shapes=12, pkgs=4, draws=25), thorough=dict(shapes=30, pkgs=24, draws=100, timeout=3000)),
+              quick=dict(shapes=12, pkgs=4, draws=25), thorough=dict(shapes=30, pkgs=24, draws=60, timeout=7200)),
          dict(name='dyn', engine='E2', pkg='optdyn', test='TestDyn',
               quick=dict(cases=12000, shards=2), thorough=dict(cases=150000, shards=16, timeout=3000)),
      ],
@@ -96,7 +96,7 @@ prop('C04',
                               'values written through converting lenses are compared semantically (a conversion may allocate), everything around them byte by byte'],
      parts=[
          dict(name='compose', engine='E1', kind='gen', gen='compose', pkg='gen', test='TestShapes',
-              quick=dict(shapes=10, pkgs=4, draws=25), thorough=dict(shapes=24, pkgs=24, draws=100, timeout=3000)),
+              quick=dict(shapes=10, pkgs=4, draws=25), thorough=dict(shapes=24, pkgs=24, draws=60, timeout=7200)),
      ],
      manifest=dict(
          engine='E1', design_ref='3/E1, 4/C04',
